@@ -12,6 +12,7 @@ import (
 	"os"
 	"runtime"
 	"sync"
+	"time"
 
 	"github.com/alicebob/sqlittle"
 )
@@ -22,6 +23,7 @@ type stressReq struct {
 	OpsPer     int      `json:"ops_per"`
 	Seed       int64    `json:"seed"`
 	SQLPool    int      `json:"sql_pool"` // goroutines sharing one database/sql pool per file
+	DeadlineS  int      `json:"deadline_s"`
 }
 
 type stressOp struct {
@@ -231,7 +233,24 @@ func cmdStress(args []string) int {
 			}
 		}(g)
 	}
-	wg.Wait()
+	// an operation that never returns (a lock taken by one handle and never given back blocks the others) must not hang
+	// the check: after the deadline the run is reported as hung
+	finished := make(chan struct{})
+	go func() { wg.Wait(); close(finished) }()
+	deadline := time.Duration(req.DeadlineS) * time.Second
+	if deadline == 0 {
+		deadline = 300 * time.Second
+	}
+	select {
+	case <-finished:
+	case <-time.After(deadline):
+		mu.Lock()
+		out, _ := json.Marshal(map[string]interface{}{"hung": true, "finished_ops": len(recs)})
+		mu.Unlock()
+		os.WriteFile(args[1], out, 0644)
+		fmt.Fprintln(os.Stderr, "stress: goroutines still blocked after the deadline")
+		os.Exit(4)
+	}
 	for _, p := range pools {
 		p.Close()
 	}
